@@ -90,8 +90,15 @@ def _kernel_scripted(draw):
     return {"kind": "kernel_scripted", "n": n, "picks": draw(st.lists(st.integers(0, 10**9), min_size=5, max_size=40)), "seed": draw(st.integers(0, 2**32 - 1))}
 
 
+@st.composite
+def _scorer_subset_case(draw):
+    n = draw(st.sampled_from([4, 5, 5]))
+    c = math.comb(n, 3)
+    return {"kind": "scorer_subset", "n": n, "budget": draw(st.integers(1, c + 1)), "max_chunk": draw(st.sampled_from([1, 1, 2, 3])), "n_plates": draw(st.integers(2, 5)), "seed": draw(st.integers(0, 2**32 - 1))}
+
+
 def strategy(tier):
-    return st.one_of(_sampled(), _sampled(), _sampled(), _kernel(), _kernel_subset(), _kernel_scripted())
+    return st.one_of(_sampled(), _sampled(), _sampled(), _kernel(), _kernel_subset(), _kernel_scripted(), _scorer_subset_case())
 
 
 def _unrank3(i):
@@ -129,6 +136,70 @@ def _lse(x):
 
     m = np.max(x)
     return float(m + np.log(np.sum(np.exp(x - m))))
+
+
+def _scorer_subset(case, gd):
+    """The triples used through the scorer entry point (several plates, several internal groups): for EVERY plate the score must be
+    the estimator over some set of min(budget, C(n,3)) pairwise distinct in-range triples."""
+    import numpy as np
+
+    from batchie.core import Theta, ThetaHolder
+    from batchie.distance_calculation import ChunkedDistanceMatrix
+    from vf import strategies as S
+
+    n, budget = case["n"], case["budget"]
+    r = np.random.default_rng(case["seed"])
+    n_pl = case["n_plates"]
+    rows = []
+    for p_ in range(n_pl):
+        for e in range(1 + (p_ % 3)):
+            rows.append({"s": "s0", "p": "p%d" % p_, "t": ["t%d" % (e % 2), "t%d" % (2 + (p_ + e) % 2)], "d": [1.0, 1.0], "o": 0.5})
+    screen = S.build_screen({"arity": 2, "control": "ctl", "rows": rows, "observed": []})
+    means = r.normal(size=(n, len(rows)))
+    var = 10.0 ** r.uniform(-1, 1, size=(n, len(rows)))
+
+    class T(Theta):
+        def __init__(self, i):
+            self.i = i
+
+        def _rows(self, data):
+            return np.where(np.asarray(data.selection_vector))[0] if hasattr(data, "selection_vector") else np.arange(data.size)
+
+        def predict_conditional_mean(self, data):
+            return means[self.i][self._rows(data)]
+
+        def predict_viability(self, data):
+            return means[self.i][self._rows(data)]
+
+        def predict_conditional_variance(self, data):
+            return var[self.i][self._rows(data)]
+
+        def private_parameters_dict(self):
+            return {}
+
+    holder = ThetaHolder(n_thetas=n)
+    for i in range(n):
+        holder.add_theta(T(i))
+    d = r.uniform(0.1, 2.0, size=(n, n))
+    d = d + d.T
+    np.fill_diagonal(d, 0)
+    dm = ChunkedDistanceMatrix(size=n)
+    for i in range(n):
+        for j in range(i):
+            dm.add_value(i, j, d[i, j])
+    plates = {int(p_.plate_id): p_ for p_ in screen.plates}
+    scorer = attach(gd, "GaussianDBALScorer")(max_chunk=case["max_chunk"], max_triples=budget)
+    got = scorer.score(plates=plates, distance_matrix=dm, samples=holder, rng=np.random.default_rng(case["seed"] + 1), progress_bar=False)
+    c = math.comb(n, 3)
+    b = min(budget, c)
+    all_triples = [tuple(sorted(x, reverse=True)) for x in itertools.combinations(range(n), 3)]
+    for pid, plate in plates.items():
+        rws = np.where(np.asarray(plate.selection_vector))[0]
+        terms = _triple_terms(means[:, rws], var[:, rws], d, all_triples)
+        score = float(got[pid])
+        ok = any(abs(_lse(terms[list(S_)]) - score) <= 1e-9 * (1 + abs(score)) for S_ in itertools.combinations(range(c), b))
+        require(ok, "scorer.score_is_a_set_of_distinct_triples", lambda: "n=%d budget=%d max_chunk=%d: the score %r of plate %d is not the estimator over any %d pairwise distinct in-range triples" % (n, budget, case["max_chunk"], score, pid, b))
+    return {"nontrivial": n_pl > case["max_chunk"], "labels": ["scorer_subset.groups>1" if n_pl > case["max_chunk"] else "scorer_subset.one-group"]}
 
 
 def _behavioural_kernel(case, gd):
@@ -220,6 +291,8 @@ def check_case(case):
     kind = case["kind"]
     if kind in ("kernel_subset", "kernel_scripted"):
         return _behavioural_kernel(case, gd)
+    if kind == "scorer_subset":
+        return _scorer_subset(case, gd)
     if kind == "all":
         n, k = case["n"], case["k"]
         ref = sorted(tuple(sorted(c, reverse=True)) for c in itertools.combinations(range(n), k))
